@@ -42,7 +42,8 @@ CONSTANTS
   Hosts,         \* solicitation sources other than ::
   Kinds,         \* extra message kinds offered by the environment
   MaxIn, MaxT, MaxFlips, MaxHolds,
-  WriteFaults, LinkFaults, AllowCancel
+  WriteFaults, LinkFaults, AllowCancel,
+  Sec            \* one second in ticks (for the monitor's rounding; 1 = waits are whole ticks)
 
 NONE == "none"
 
@@ -101,7 +102,8 @@ Init ==
   /\ ls = [pc |-> "off", i |-> 0, timer |-> 0, msg |-> NONE]
   /\ lsown = FALSE /\ intr = "off" /\ dl = FALSE /\ lw = "off" /\ linkEv = FALSE
   /\ ipc = <<>> /\ inbox = <<>> /\ fwd \in BOOLEAN /\ held = {}
-  /\ rq = ReqInit(UnicastOnly, CfgLife, FALSE, MinIv > MaxT)
+  /\ rq = ReqInit([unicast |-> UnicastOnly, cfglife |-> CfgLife, mon |-> FALSE, strict |-> MinIv > MaxT,
+                  quiet |-> (MaxIn = 0 /\ MinIv >= 2 * MinDelay), miniv |-> MinIv, maxiv |-> MaxIv])
   /\ nIn = 0 /\ nFlip = 0 /\ nHold = 0
 
 \* errgroup: first error wins and cancels the group context
